@@ -1817,6 +1817,10 @@ static void emit_text(Obj *prog) {
 void codegen(Obj *prog, FILE *out) {
   output_file = out;
 
+  // Name the object file's symbols after the input file; the linker
+  // would name them after our temporary file otherwise.
+  println("  .file \"%s\"", base_file);
+
   File **files = get_input_files();
   for (int i = 0; files[i]; i++)
     println("  .file %d \"%s\"", files[i]->file_no, files[i]->name);
